@@ -393,15 +393,58 @@ def check_c16a(case, obs):
         if isinstance(i["val"], int) and i["val"] in bad:
             if i["eid"] not in T.failed_step:
                 out.append(("C16", "C16/exception-swallowed/async/%s" % T.kind,
-                            "the key function raised for %r but emit %d did not fail (completed in step %s)"
+                            "the node's user function (key function / mapped function) raised for %r but emit %d did not fail (completed in step %s)"
                             % (i["val"], i["eid"], T.done_step.get(i["eid"]))))
             for (r, has) in i["md"]:
                 if has and T.fired_step.get(r):
                     out.append(("C16", "C16/callback-for-failed/async/%s" % T.kind,
                                 "the key function raised for %r but the callback of counter %d fired (step %r)" % (i["val"], r, T.fired_step[r])))
+    if T.kind == "flatten":
+        return check_c16_flatten(T)
+    if T.kind == "map_async":
+        # later elements are processed as if the failing element had not been offered: the others come out in order,
+        # and (once every consumer and task has finished) all of them, and their emits complete
+        good = [i for i in T.inputs if not (isinstance(i["val"], int) and i["val"] in bad)]
+        got = [d["val"] for d in T.deliv]
+        exp = [expected_item("map_async", i) for i in good]
+        if got != exp[:len(got)]:
+            out.append(("C16", "C16/later-elements-disturbed/async/map_async", "the mapped function raised at call time for %r; the sink received %r, the other elements give %r" % (sorted(bad), got[:12], exp[:12])))
+        elif T.drained and len(got) != len(exp):
+            out.append(("C16", "C16/later-elements-lost/async/map_async", "the mapped function raised at call time for %r; after everything finished the sink has %d of the %d other elements" % (sorted(bad), len(got), len(exp))))
+        elif T.drained:
+            pend = [i["eid"] for i in good if i["eid"] not in T.done_step and i["eid"] not in T.failed_step]
+            if pend:
+                out.append(("C16", "C16/later-emits-never-complete/async/map_async", "the mapped function raised at call time for %r; emits %r of other elements never completed although no consumer or task is pending" % (sorted(bad), pend[:6])))
+        return out
     for d in T.deliv:
         if any(isinstance(x, int) and x in bad for x in flat_items(T.kind, d)):
             out.append(("C16", "C16/failed-element-delivered/async/%s" % T.kind, "batch %r contains an element whose key function raised" % (d["val"],)))
+    return out
+
+
+def check_c16_flatten(T):
+    """flatten in front of failing asynchronous consumers: the items of an element are handed on one after the other; if
+    the consumer of ANY of them fails the awaitable of that element's emit fails, otherwise it completes; every item of
+    every element is handed on (a failure does not disturb the other items / later elements)"""
+    out = []
+    pos = 0
+    for i in T.inputs:
+        items = list(i["val"]) if isinstance(i["val"], list) else [i["val"]]
+        ds = T.deliv[pos:pos + len(items)]
+        pos += len(items)
+        if [d["val"] for d in ds] != items:
+            out.append(("C16", "C16/later-elements-disturbed/async/flatten", "element %r: its items were handed on as %r" % (items, [d["val"] for d in ds])))
+            return out
+        failed = [d["val"] for d in ds if d.get("failed")]
+        pending = [d for d in ds if d["acked_step"] is None]
+        if failed and not pending and i["eid"] not in T.failed_step and (T.drained or i["eid"] in T.done_step):
+            out.append(("C16", "C16/exception-swallowed/async/flatten",
+                        "the consumer of item(s) %r of element %r failed but emit %d %s" % (failed, items, i["eid"],
+                         "completed normally (step %s)" % T.done_step[i["eid"]] if i["eid"] in T.done_step else "never failed")))
+            return out
+        if not failed and i["eid"] in T.failed_step:
+            out.append(("C16", "C16/spurious-exception/async/flatten", "no consumer of %r failed but emit %d failed" % (items, i["eid"])))
+            return out
     return out
 
 
